@@ -178,7 +178,9 @@ def gen_jobs(tier, seed, env_text):
          for _ in range(2000 if q else 40000)])
     fnames = ["mod_func", "wrapped", "wrapped_twice", "gen_func", "coro_func", "K.inst", "K.cm", "K.sm", "K.prop", "K.wrapped_meth",
               "K.Nested.meth", "K.Nested.nsm", "KSub.inst"]
-    tpool = tds[:12] + rng.sample(t1, 40 if q else 400)
+    nf = lambda t: json.dumps(t).count('"k": "req"') + json.dumps(t).count('"k": "opt"')  # noqa: E731
+    many_keys = sorted(tds, key=lambda t: (-nf(t), canon(t)))[:12]       # TypedDicts with several keys first
+    tpool = many_keys + tds[:8] + rng.sample(t1, 40 if q else 400)
     add("call traces: every fixture function x ret/yield in {absent, NoneType, type}",
         [{"kind": "call", "func": f, "types": [t, rng.choice(tpool)], "ret": r, "yld": y}
          for f in fnames for t in tpool for r in ("absent", "none", "type") for y in ("absent", "none", "type")])
